@@ -102,7 +102,10 @@ func c18Reference(in c18Input) (nodes []string, firstErr string, pnc string) {
 var c18GoroutineRe = regexp.MustCompile(`(?s)goroutine \d+ \[chan send[^\]]*\]:\n[^\n]*parser\.Parser\.Parse(Stream|File)`)
 
 // c18Run executes one channel-parser run under the given policy and jitter.
-func c18Run(c *core.Ctx, in c18Input, policy string, r *rand.Rand) (trace []string, pattern string, verdict string) {
+// slowAfter > 0: the consumer additionally pauses that long after every event it receives
+// (a consumer that handles an error or a record slowly); a producer that gives up waiting
+// for the consumer shows up as a missing Done / a wrong trace.
+func c18Run(c *core.Ctx, in c18Input, policy string, r *rand.Rand, slowAfter time.Duration) (trace []string, pattern string, verdict string) {
 	p := parser.NewParser(parser.NewDefaultConfig())
 	exited := make(chan struct{})
 	readerJitter := r.Intn(3)
@@ -153,6 +156,9 @@ func c18Run(c *core.Ctx, in c18Input, policy string, r *rand.Rand) (trace []stri
 loop:
 	for {
 		delay()
+		if slowAfter > 0 && len(evs) > 0 {
+			time.Sleep(slowAfter)
+		}
 		select {
 		case n := <-p.Nodes:
 			// keep the pointer; fields are read only after the producer has moved on
@@ -272,7 +278,7 @@ func runC18(c *core.Ctx) {
 						c.Violation("callback-parser|panic", clip(pnc, 300), map[string]any{"input": in.text, "file": in.file})
 						continue
 					}
-					trace, pattern, verdict := c18Run(c, in, policy, r)
+					trace, pattern, verdict := c18Run(c, in, policy, r, 0)
 					c.Eval(1)
 					var want []string
 					for _, nd := range nodes {
@@ -320,6 +326,68 @@ func runC18(c *core.Ctx) {
 			})
 		}
 		runtime.GOMAXPROCS(16)
+		// slow consumers: a few inputs of every class, pauses of 150 ms / 1.2 s / 2.5 s after each event
+		byClass := map[string][]c18Input{}
+		for _, in := range ins {
+			// short inputs only: the pause is taken after every event
+			if len(byClass[in.class]) < 2 && len(in.text) < 400 {
+				byClass[in.class] = append(byClass[in.class], in)
+			}
+		}
+		type slowCase struct {
+			in     c18Input
+			policy string
+			pause  time.Duration
+		}
+		var slow []slowCase
+		for _, cl := range sortedKeys(byClass) {
+			for _, in := range byClass[cl] {
+				for _, policy := range []string{"A", "B"} {
+					for _, pause := range []time.Duration{150 * time.Millisecond, 1200 * time.Millisecond, 2500 * time.Millisecond} {
+						slow = append(slow, slowCase{in, policy, pause})
+					}
+				}
+			}
+		}
+		core.ParallelFor(len(slow), 64, func(w, i int) {
+			sc := slow[i]
+			nodes, firstErr, _ := c18Reference(sc.in)
+			if len(nodes) > 4 {
+				return
+			}
+			trace, pattern, verdict := c18Run(c, sc.in, sc.policy, c.Rng("slow", i), sc.pause)
+			c.Eval(1)
+			c.Count("slow_consumer_runs", 1)
+			c.Nontrivial("slow", sc.in.text, sc.in.file, sc.policy, sc.pause.String())
+			var want []string
+			for _, nd := range nodes {
+				want = append(want, "node("+nd+")")
+			}
+			if firstErr != "" {
+				want = append(want, "err("+firstErr+")")
+			}
+			if sc.policy == "A" && firstErr == "" {
+				want = append(want, "done")
+			}
+			if sc.policy == "B" {
+				want = append(want, "done", "exited")
+			}
+			site := "ParseStream"
+			if sc.in.file != "" {
+				site = "ParseFile"
+			}
+			rep := map[string]any{"input_class": sc.in.class, "input": clip(sc.in.text, 3000), "file": sc.in.file, "policy": sc.policy, "consumer_pause_after_each_event": sc.pause.String(), "jitter_pattern": pattern, "expected_trace": want, "observed_trace": trace, "verdict": verdict}
+			switch {
+			case verdict == "watchdog":
+				c.Inconclusive("l3-traces", fmt.Sprintf("watchdog on slow-consumer case %d", i))
+			case verdict == "producer-exited-without-done":
+				c.Violation(site+" policy "+sc.policy+"|done-never-delivered", fmt.Sprintf("%s input, consumer pausing %v after each event: the producer returned without sending Done. trace %v", sc.in.class, sc.pause, clipList(trace)), rep)
+			case verdict == "producer-blocked-after-done":
+				c.Violation(site+" policy "+sc.policy+"|producer-blocked-after-done", "producer still blocked in a channel send after Done", rep)
+			case strings.Join(trace, "\n") != strings.Join(want, "\n"):
+				c.Violation(site+" policy "+sc.policy+"|trace-mismatch", fmt.Sprintf("%s input, consumer pausing %v: observed %v, want %v", sc.in.class, sc.pause, clipList(trace), clipList(want)), rep)
+			}
+		})
 	})
 	// race reports of the child process
 	files, _ := filepath.Glob(raceGlob)
